@@ -33,6 +33,7 @@ type Scenario struct {
 	Tasks    []TaskSpec     `json:"tasks"`
 	LateDone bool           `json:"late_done,omitempty"` // Done() is first called by a waiter task, at a scheduler-chosen time
 	Preload  []int          `json:"preload"`             // callback modules imported before the run
+	FSFault  string         `json:"fsfault,omitempty"`   // "<file>:<kind>": I/O fault on a source file behind the resolver (eio-stat, eio-read, torn, vanish, stat-once)
 	CBAct    []int          `json:"cbact,omitempty"`     // per callback module: what its close callback does (0 record, 1 stay in flight for a few steps, 2 RunCode on its own context, 3 py.Import on its own context, 4 call a Python function of the context that imports)
 	Policy   string         `json:"policy"`              // random | pct | quantum | serial
 	PNum     int            `json:"pnum"`
@@ -258,6 +259,9 @@ func (Engine) Gen(seed uint64, idx int, tier string) interface{} {
 			sc.Preload = append(sc.Preload, i)
 		}
 	}
+	if r.Chance(1, 4) {
+		sc.FSFault = []string{"srca", "srcb", "bad"}[r.Intn(3)] + ":" + []string{"eio-stat", "eio-read", "torn", "vanish", "stat-once"}[r.Intn(5)]
+	}
 	if r.Chance(1, 3) {
 		sc.CBAct = make([]int, nCB)
 		for i := range sc.CBAct {
@@ -400,7 +404,7 @@ func (Engine) Shrink(sci interface{}) []interface{} {
 
 func (Engine) Describe() harness.EngineInfo {
 	return harness.EngineInfo{
-		Rule: "scenario = 1-5 tasks on ONE context, each a script of RunCode / ModuleInit (Code, CodeSrc, registered Go module with close callback) / ResolveAndCompile / RunFile / py.Import issued from Go / py.Call of a pre-defined Python function that imports, exec()s or eval()s source or a precompiled code object or calls __import__ / Close / Done-wait, bodies with mark_start, hold(k), nested import|exec|raise, mark_end; in 1 of 3 scenarios the modules' close callbacks stay in flight for a few steps or re-enter their own closing context (RunCode / py.Import / py.Call of a function that exec()s), which must be refused with an ordinary error; scheduler policy (random p, PCT d<=4, quantum, serial) and map order drawn per run; preemption before every statement of package stdlib, every simsync operation, every VM instruction. distinct = distinct sequences of (task, harness event) i.e. distinct interleavings at event granularity; non-trivial = at least one Close call overlaps (invoke..return) an execution request or a request starts after a Close returned",
+		Rule: "scenario = 1-5 tasks on ONE context, each a script of RunCode / ModuleInit (Code, CodeSrc, registered Go module with close callback) / ResolveAndCompile / RunFile / py.Import issued from Go / py.Call of a pre-defined Python function that imports, exec()s or eval()s source or a precompiled code object or calls __import__ / Close / Done-wait, bodies with mark_start, hold(k), nested import|exec|raise, mark_end; in 1 of 4 scenarios one source file behind the resolver fails (EIO on stat or read, torn content, vanishing between stat and read, first stat failing); in 1 of 3 scenarios the modules' close callbacks stay in flight for a few steps or re-enter their own closing context (RunCode / py.Import / py.Call of a function that exec()s), which must be refused with an ordinary error; scheduler policy (random p, PCT d<=4, quantum, serial) and map order drawn per run; preemption before every statement of package stdlib, every simsync operation, every VM instruction. distinct = distinct sequences of (task, harness event) i.e. distinct interleavings at event granularity; non-trivial = at least one Close call overlaps (invoke..return) an execution request or a request starts after a Close returned",
 		Real: []string{"stdlib.context (pushBusy/popBusy/Close/Done/RunCode/ModuleInit/ResolveAndCompile)", "py.ModuleStore", "py.Import machinery", "parser/symtable/compile", "vm"},
 		Stubbed: []string{"sync.{Once,WaitGroup,Mutex,RWMutex,Cond} -> simsync (same semantics, blocking visible to the scheduler)",
 			"sync/atomic -> simatomic", "close/recv/send on channels -> simrt.Chan*", "os.Stat/ReadFile/Open/Getwd in the import resolver -> simfs (in-memory tree)", "Go map iteration order -> seeded"},
@@ -516,7 +520,21 @@ func (e Engine) Exec(sci interface{}, opt harness.ExecOpts) *harness.Outcome {
 	// set-up outside the simulation: file system, context, preloaded modules
 	fs := simfs.New()
 	for p, src := range srcModules {
-		fs.AddFile(p, src)
+		n := fs.AddFile(p, src)
+		if i := strings.IndexByte(sc.FSFault, ':'); i > 0 && p == "/simcwd/lib/"+sc.FSFault[:i]+".py" {
+			switch sc.FSFault[i+1:] {
+			case "eio-stat":
+				n.Fault = simfs.FaultStatEIO
+			case "eio-read":
+				n.Fault = simfs.FaultReadEIO
+			case "torn":
+				n.Fault, n.TornN = simfs.FaultTorn, len(src)/2
+			case "vanish":
+				n.Fault = simfs.FaultVanish
+			case "stat-once":
+				n.Fault = simfs.FaultStatOnce
+			}
+		}
 	}
 	simfs.Install(fs)
 	defer simfs.Install(nil)
@@ -709,6 +727,11 @@ func (e Engine) Exec(sci interface{}, opt harness.ExecOpts) *harness.Outcome {
 	out.Switches = res.Switches
 	out.Capped = res.Capped
 	out.Fault("fs_enoent", int64(fs.Fired["enoent"]))
+	for _, k := range []string{"stat_eio", "read_eio", "torn", "vanish"} {
+		if fs.Fired[k] > 0 {
+			out.Fault("fs_"+k, int64(fs.Fired[k]))
+		}
+	}
 	if opt.KeepLog {
 		for _, e := range res.Events {
 			out.Trace = append(out.Trace, e.String())
